@@ -339,7 +339,7 @@ pub fn run(tier: Tier) -> i32 {
     let rep: &'static Report = Box::leak(Box::new(Report::new("C20", tier, "model_checking")));
     let monitor = std::sync::Arc::new(HangMonitor::start(rep, "C20 setter history"));
     let depth: u8 = tier.pick(2, 3);
-    rep.set_rule("HIST (stateright BFS): all histories of real Condition setter calls up to the depth bound over the listed value alphabet, on V0, a generated 2-stream voice and a generated 4-stream voice, each call made on a copy of the previous state's Condition (which must stay as it was); states merged by (depth, Debug rendering of the real Condition); a state is non-trivial if it differs from the initial rendering; plus a search to closure (depth cap 7/9) over the per-stream setters alone; invariant: every getter equals the clamped reference after every call");
+    rep.set_rule("HIST (stateright BFS): all histories of real Condition setter calls up to the depth bound over the listed value alphabet, on V0, a generated 2-stream voice and a generated 4-stream voice (plus the fresh state and every single call on generated voices of 5..9 streams, thorough 33), each call made on a copy of the previous state's Condition (which must stay as it was); states merged by (depth, Debug rendering of the real Condition); a state is non-trivial if it differs from the initial rendering; plus a search to closure (depth cap 7/9) over the per-stream setters alone; invariant: every getter equals the clamped reference after every call");
     rep.assume("f64 arguments are the 12-value alphabet {0,-0,±1,.5,1e-7,5e-324,±1e300,2,±24}; usize {0,1,2,48000,MAX}; other values are not explored");
     rep.assume("getter vs reference compared numerically (so -0.0 == 0.0), volume within 1e-9 dB");
     let mut total_states = 0u64;
@@ -391,6 +391,43 @@ pub fn run(tier: Tier) -> i32 {
             return 2;
         }
         rep.note(&format!("bounds_{}", if ec.nstream == 3 { "V0" } else if ec.nstream == 2 { "G2" } else { "G4" }), json!({"alphabet": acts.len(), "depth": depth, "unique_states": counts[0].0, "max_depth": counts[0].1}));
+    }
+    // voices with many streams (5..9, thorough up to 33): the state of a freshly loaded engine and every single setter call
+    {
+        let mut n = 0u64;
+        for ns in tier.pick(vec![5usize, 6, 8, 9], vec![5, 6, 7, 8, 9, 16, 17, 33]) {
+            let cfg = GenCfg { ns, rate: 16000, fperiod: 80, alpha: 0.42, ..GenCfg::default() };
+            let e = match engine_from_bytes(&cfg.bytes()) {
+                Ok(e) => e,
+                Err(er) => {
+                    rep.violation("many-streams-load", format!("a generated voice with {} streams is not loaded: {}", ns, er), json!({"engine": cfg.describe(), "history": []}));
+                    continue;
+                }
+            };
+            let reference = RefCond::initial(16000, 80, 0.42, ns);
+            if let Some(m) = reference.mismatch(&e.condition) {
+                rep.violation(format!("many-streams-initial:{}", m.split_whitespace().next().unwrap_or("")), format!("freshly loaded {}-stream voice: {}", ns, m), json!({"engine": cfg.describe(), "history": []}));
+                continue;
+            }
+            for a in alphabet(ns, tier) {
+                n += 1;
+                let mut c = e.condition.clone();
+                let mut r = reference.clone();
+                let res = catch(|| a.apply(&mut c));
+                r.apply(&a);
+                let bad = match res {
+                    Err(p) => Some(format!("panic in {:?}: {}", a, p)),
+                    Ok(()) => r.mismatch(&c).map(|m| format!("after {:?}: {}", a, m)),
+                };
+                if let Some(what) = bad {
+                    rep.violation(format!("many-streams:{}", what.split(':').nth(1).unwrap_or("").split_whitespace().next().unwrap_or("")), format!("{} on a {}-stream voice", what, ns), json!({"engine": cfg.describe(), "history": [a.to_json()]}));
+                    break;
+                }
+            }
+        }
+        rep.eval(n);
+        rep.transitions.fetch_add(n, std::sync::atomic::Ordering::Relaxed);
+        rep.note("many_streams", json!({"single_setter_calls": n}));
     }
     // deeper histories on a reduced alphabet: the per-stream setters only (threshold and GV weight of every stream, each
     // set to its default, to another value, to a value that is clamped), explored until no new state appears - "all
